@@ -147,6 +147,64 @@ def handmade(rng, n):
   return recs
 
 
+def assembled_diffs():
+  """Hand-assembled Diff objects (not producible by build_diff): references into an aliased, replaced part."""
+  recs = []
+  A, I, K = daglish.Attr, daglish.Index, daglish.Key
+  def mk():
+    x = fdl.Config(H.g4, s1=1)
+    shared = fdl.Config(H.ClsA, s1=x, s2=2)
+    return fdl.Config(H.f1, s1=shared, s2=shared, s3=[0])
+  diffs = [
+      ('ref-through-second-alias',
+       diffing.Diff(changes=(diffing.ModifyValue((A('s1'), A('s1')), 5),
+                             diffing.ModifyValue((A('s3'),),
+                                                 [diffing.Reference('old', (A('s2'), A('s1')))])),
+                    new_shared_values=())),
+      ('change-below-second-alias',
+       diffing.Diff(changes=(diffing.ModifyValue((A('s1'), A('s1')), fdl.Config(H.g4, s1=9)),
+                             diffing.ModifyValue((A('s2'), A('s1'), A('s1')), 7)),
+                    new_shared_values=())),
+      ('shared-chain',
+       diffing.Diff(changes=(diffing.ModifyValue((A('s3'),),
+                                                 [diffing.Reference('new_shared_values', (I(2),)),
+                                                  diffing.Reference('new_shared_values', (I(2),))]),),
+                    new_shared_values=(fdl.Config(H.g4, s1=4),
+                                       [diffing.Reference('new_shared_values', (I(0),)),
+                                        diffing.Reference('new_shared_values', (I(0),))],
+                                       {'k1': diffing.Reference('new_shared_values', (I(1),)),
+                                        'k2': diffing.Reference('new_shared_values', (I(1),))}))),
+  ]
+  for label, d in diffs:
+    old = mk()
+    try:
+      tgt = copy.deepcopy(old)
+      diffing.apply_diff(d, tgt)
+      expected = H.project(tgt)[0]
+    except Exception as e:  # a diff apply_diff itself rejects is no test of the fiddler
+      continue
+    for naming, with_old in MODES:
+      rec = {'tid': 0, 'label': 'assembled-' + label, 'naming': naming, 'with_old': with_old, 'compiled': 'F',
+             'env': [], 'stmts': [], 'ran': 'not-run', 'result': [], 'expected': expected, 'code': '',
+             'old': H.project(old)[0], 'new': expected}
+      try:
+        code = codegen_diff.fiddler_from_diff(d, old=old if with_old else None, variable_naming=naming).code
+        rec['code'] = code
+        compiled = compile(code, '<fiddler>', 'exec')
+        rec['compiled'] = 'T'
+        rec['env'], rec['stmts'] = abstract_statements(code)
+        ns = {}
+        exec(compiled, ns)  # pylint: disable=exec-used
+        t2 = copy.deepcopy(old)
+        ns['fiddler'](t2)
+        rec['ran'] = 'ok'
+        rec['result'] = H.project(t2)[0]
+      except Exception as e:  # pylint: disable=broad-except
+        rec['ran'] = 'raise:' + type(e).__name__
+      recs.append(rec)
+  return recs
+
+
 def judge(v, recs, wd):
   os.makedirs(wd, exist_ok=True)
   for n, r in enumerate(recs):
@@ -213,6 +271,11 @@ def main():
         allrecs += recs
     rng = random.Random(common.seed() * 256203221 + 14)
     allrecs += handmade(rng, 60 if quick else 600)
+    for old, new, label in c10.handmade_pairs(rng, 40 if quick else 400):
+      for r in records_for(old, new, 'c10' + label):
+        r['old'], r['new'] = H.project(old)[0], H.project(new)[0]
+        allrecs.append(r)
+    allrecs += assembled_diffs()
     # binding demo: a fiddler that uses a name before defining it must be rejected
     good = next(r for r in allrecs if r['ran'] == 'ok' and len(r['stmts']) >= 1)
     bad = dict(good, stmts=[{'defs': [], 'uses': [999]}] + good['stmts'])
